@@ -96,6 +96,27 @@ add("C18", "single-fault mutants of generated model modules (enumerated + Hypoth
     "Model modules are generated from a spec-to-source generator in the check; registry and import state are "
     "process-global and restored after every case.")
 
+add("C12", "pairs of configurations differing in exactly one respect (Hypothesis-generated base + one modification, kinds "
+           "scheduled round-robin); equal-hash pairs are decided by actually fitting both; child interpreters with "
+           "different PYTHONHASHSEED",
+    "For each of 17 kinds of single change (every fit-setting key, parameter value/min/max/vary/expr, one data sample "
+    "by 1 ulp..1 %, preprocessing list/options, 9 representation variants, the two documented don't-cares) the hash "
+    "must differ for relevant changes - when it does not, both configurations are fitted and any difference in the "
+    "results is a violation - and must be equal for representation changes and don't-cares; equal objects hash "
+    "equal; the hash of the same configuration is identical in child processes started with three other hash seeds.",
+    "'Can influence the result' is decided operationally by fitting; cross-process determinism is sampled "
+    "(16 configurations x 3 hash seeds quick).")
+
+add("C20", "Hypothesis-generated measurement files/folders (synthetic HDF5 maps with scrambled scan order and missing "
+           "pixels, recorded JPK files) and fit/rate histories against an independent count/pixel model",
+    "Loading: curve count, class, (file, enum) order, unique enumerations, callback values within [0,1], "
+    "non-decreasing and ending at 1, metadata override, refusal of curves lacking both spring constant and tip "
+    "position (append / += / file load). Maps: after every fit / rate / refit / re-preprocess operation each pixel "
+    "derived independently from the written grid metadata holds the curve's current modulus [Pa], contact point "
+    "[nm] or rating, NaN elsewhere, exactly one DataMissingWarning per present curve lacking the value.",
+    "afmformats (file readers, grid geometry) is the trusted substrate; the list-of-paths form of load_data is outside "
+    "the property and not exercised.")
+
 NOT_YET = {}
 
 ALL = [f"C{i:02d}" for i in range(1, 21)]
